@@ -139,18 +139,20 @@ class Failure:
 
 
 class Ctx:
-    def __init__(self, pid: str, tier: str, seed: int):
+    def __init__(self, pid: str, tier: str, seed: int, replay: bool = False):
         self.pid, self.tier, self.seed = pid, tier, seed
+        self.replay_mode = replay
         self.quick = tier == "quick"
         self.rng = random.Random(seed)
         self.repo = REPO
         self.t0 = time.time()
-        self.work = BUILD / pid
+        self.work = BUILD / (pid + "-replay" if replay else pid)   # a replay keeps the run's files
         if self.work.exists():
             shutil.rmtree(self.work)
         self.work.mkdir(parents=True)
-        for old in (VERIF / "replays").glob(f"{pid}-*.json"):
-            old.unlink()
+        if not replay:
+            for old in (VERIF / "replays").glob(f"{pid}-*.json"):
+                old.unlink()
         self.scratch = Path(f"/var/tmp/verif-{pid}-{os.getpid()}")
         self.failures: list[Failure] = []
         self.cov: dict = {
